@@ -93,19 +93,20 @@ Definition decode_stream (e : dentry) (stream : list byte) : option dfile :=
   match kind_of (e_type e) (e_ascii e) with
   | ML =>
       match stream with
-      | 0 :: lh :: ll :: ah :: al :: rest =>
+      | z :: lh :: ll :: ah :: al :: rest =>
           let n := N.to_nat (word lh ll) in
           match skipn n rest with
-          | [255; 0; 0; eh; el] =>
-              if Nat.eqb (length (firstn n rest)) n then Some (mk (word ah al) (word eh el) (firstn n rest)) else None
+          | [p0; p1; p2; eh; el] =>
+              if (z =? 0) && (p0 =? 255) && (p1 =? 0) && (p2 =? 0) && Nat.eqb (length (firstn n rest)) n
+              then Some (mk (word ah al) (word eh el) (firstn n rest)) else None
           | _ => None
           end
       | _ => None
       end
   | BASIC =>
       match stream with
-      | 255 :: lh :: ll :: rest =>
-          if Nat.eqb (length rest) (N.to_nat (word lh ll)) then Some (mk 0 0 rest) else None
+      | z :: lh :: ll :: rest =>
+          if (z =? 255) && Nat.eqb (length rest) (N.to_nat (word lh ll)) then Some (mk 0 0 rest) else None
       | _ => None
       end
   | ASCII => Some (mk 0 0 stream)
